@@ -188,3 +188,35 @@ Definition quota_code (budget_milli cap_milli cur obs : Z) : Z :=
   else if big then
     (if obs =? cur + Z.quot (win * fst beMaxIncreaseCPUPercent) (snd beMaxIncreaseCPUPercent) then 0 else 402)
   else if obs =? q then 0 else 403.
+
+(* ================================================================ quota mode over a history *)
+
+(* [prev] is the content of the file before the step, [o] after it *)
+Definition qstep_ok (cap prev : Z) (op : qop) (o : Z) : Prop :=
+  match op with
+  | QAdjust b => quota_holds b cap prev o      (* after EVERY quota round the formula value is in force *)
+  | QRecover => o = prev \/ o = -1
+  | QReset v => o = v
+  | QCpuset => o = prev
+  end.
+Fixpoint hist_holds (cap prev : Z) (ops : list qop) (obs : list Z) : Prop :=
+  match ops, obs with
+  | [], [] => True
+  | op :: t, o :: u => qstep_ok cap prev op o /\ hist_holds cap o t u
+  | _, _ => False
+  end.
+
+Definition qstep_code (cap prev : Z) (op : qop) (o : Z) : Z :=
+  match op with
+  | QAdjust b => let c := quota_code b cap prev o in if c =? 0 then 0 else c + 100   (* 501..503 *)
+  | QRecover => if (o =? prev) || (o =? -1) then 0 else 511
+  | QReset v => if o =? v then 0 else 512
+  | QCpuset => if o =? prev then 0 else 513
+  end.
+Fixpoint hist_code (cap prev : Z) (ops : list qop) (obs : list Z) : Z :=
+  match ops, obs with
+  | [], [] => 0
+  | op :: t, o :: u => let c := qstep_code cap prev op o in if c =? 0 then hist_code cap o t u else c
+  | _, _ => 519
+  end.
+
